@@ -18,6 +18,7 @@ type Scenario struct {
 	Shards   int      `json:"shards"`   // hint: 1 = small scenario, run in one process
 	Race     bool     `json:"race"`     // part of the race-mode (C19) set
 	Seq      bool     `json:"seq"`      // sequential enumeration (engine B): the body enumerates, bound 0
+	Only     string   `json:"only"`     // "" = both tiers, else "quick" or "thorough"
 	PoolChoice bool   `json:"pool_choice"`
 	Body     func(h *H) `json:"-"`
 	SeqRun   func(r *SeqReport) `json:"-"`
